@@ -17,6 +17,8 @@ pub fn gen_case(c: &mut Choices, adversarial: bool) -> Case {
         tsx,
         unusual: true,
         adversarial,
+        // reach the resolveType paths (derived props copy parts of the setup function)
+        force_define_component: tsx && opts.resolve_type && c.chance(2, 3),
         ..Knobs::default()
     };
     let mut g = G::new(c, knobs);
